@@ -131,7 +131,7 @@ PROPS["C16"] = {
     "bounds": "engine M: one consumer thread that returns + 2 (quick) / 3 (thorough) producers colliding at the full boundary (BUFFER_SIZE 2, pre-filled full); a producer that is still not finished although every other thread returned K steps earlier (K = its longest acyclic path + 2) is a violation; stuttering allowed, no partial-order reduction. engine K (harnesses c01::*): rejected send leaves pending count unchanged, payload handed back, after a drain exactly BUFFER_SIZE sends are accepted, any origin",
     "outside": "more than 3 producers; unbounded fill/drain histories beyond the script length (K covers L<=6 + drain + refill); Arc Multi channels and crossbeam setter sends (excluded by the statement)",
     "assumptions": [_M_NOTE, "'returns promptly' is decided as: the call finishes within a bounded number of its own steps once no other thread is running"],
-    "m": [M("c16_atomic_two_rejected_vs_consumer_n2"), M("c16_atomic_rejected_vs_two_recv_n2", "thorough"), M("c16_fullsync_two_rejected_vs_consumer_n2"), M("c16_zc_atomic_rejected_vs_consumer_n2", "thorough"),
+    "m": [M("c16_atomic_two_rejected_vs_consumer_n2"), M("c16_zc_atomic_rejected_while_slot_held_n2"), M("c16_zc_fullsync_rejected_while_slot_held_n2"), M("c16_atomic_rejected_vs_two_recv_n2", "thorough"), M("c16_fullsync_two_rejected_vs_consumer_n2"), M("c16_zc_atomic_rejected_vs_consumer_n2", "thorough"),
           M("c16_atomic_three_senders_n2", "thorough"), M("c16_zc_fullsync_rejected_vs_consumer_n2", "thorough")],
     "k": [H("c01::c01_ring_atomic_n2_l5", inst="AtomicMove<u32,2>", bounds="L=5", oracle="C16 assertions of the FIFO script", stubs=_C08_STUBS),
           H("c01::c01_ring_full_sync_n2_l5", inst="FullSyncMove<u32,2>", bounds="L=5", stubs=_C08_STUBS)],
